@@ -28,7 +28,7 @@ from ..tok import S
 
 PID = "C08"
 COQ_HEADER = ("From Coq Require Import List NArith ZArith.\nImport ListNotations.\n"
-              "From SK Require Import lib.Tok lib.LGraph model.C08_Model model.C08_Digraph model.C08_Sel model.C08_Obs.\n")
+              "From SK Require Import lib.Tok lib.LGraph model.C08_Model model.C08_Digraph model.C08_Sel model.C08_Obs model.C08_Rule2.\n")
 SHARD = 60
 BATCH_MODEL_MAX = 60
 BACKENDS = ["generic", "wl", "morgan", "nauty"]
@@ -72,9 +72,14 @@ TESTED_NOT_PROVED = ["wl / morgan, clause 'the signature is a function of the gr
                      "presentations - that the implementation's WL colours / Morgan labels do not depend on the insertion order is a hidden "
                      "premise, monitored only: the oracle clause sig-function/wl, sig-function/morgan demands equal signatures AND equal "
                      "canonical graphs for re-inserted same-id presentations on every case (audit A2-2: the theorem is PARTIAL for the clause)",
-                     "SynRule: the joint-bijection clause is proved in the direction isomorphic => equal and REFUTED for the three-signature "
-                     "comparison in the other direction (C08_value_objects_synrule_refuted); the repaired implementation (rc signature over "
-                     "both sides of typesGH, 4537ada) is judged by the oracle on rules built from ITS graphs (case kind itsrule), not modelled",
+                     "SynRule: the REPAIRED equality (rc signature over both sides of typesGH, 4537ada) is modelled at the level of its VERDICT "
+                     "(coq/model/C08_Rule2.v: the two-sided graph is encoded injectively as an ordinary graph and signed by the model of the exact "
+                     "back-end; the implementation runs the same search on tuple-valued attributes) and proved exact (C08_synrule_repaired_*); the "
+                     "verdict matrices of all itsrule and rule cases are compared on every run.  Not modelled: the text of the tuple-valued "
+                     "signature string itself, its_decompose and the hydrogen handling of the constructor (their RESULT is checked per rule: "
+                     "the stored fragments are the projections left_of / right_of of the stored ITS graph), SynRule with the other back-ends "
+                     "(oracle only).  The three-signature comparison of the one-sided graphs (pre-repair, today's fall-back for rc graphs without "
+                     "typesGH) stays refuted as a characterisation of one bijection (C08_value_objects_synrule_refuted)",
                      "history / provenance independence: in the model a graph IS its node list and edge list (no graph-level attributes, no object "
                      "identity, no canonicaliser state), so the modelled functions cannot look at anything else by construction; that the "
                      "implementation does not either is checked by the oracle on every graph case (inputs derived from earlier outputs: "
@@ -384,8 +389,86 @@ def _pattern(xs):
     return [first.setdefault(x, len(first)) for x in xs]
 
 
+RULE2_VARIANTS = ({}, {"implicit_h": False})
+
+
+def _rule2_family(case):
+    """The ITS graphs of a rule-level case: the family of an itsrule case, the two reactions of a rule case."""
+    if case["kind"] == "itsrule":
+        return [_nx_its(g) for g in case["rules"]]
+    from synkit.IO.chem_converter import rsmi_to_its
+    return [rsmi_to_its(case["a"]), rsmi_to_its(case["b"])]
+
+
+def _rule2_objects(case):
+    from synkit.Rule.syn_rule import SynRule
+    c = _canoniser("nauty")
+    return [[SynRule(G, canonicaliser=c, **kw) for G in _rule2_family(case)] for kw in RULE2_VARIANTS]
+
+
+def _rule2_obs(case):
+    """SynRule.__eq__ and equality of __hash__ for every pair i < j of the family (exact back-end), with and without implicit_h:
+    compared with the model of the REPAIRED equality (coq/model/C08_Rule2.v: left, right and two-sided rc signature)."""
+    out = []
+    for rules in _rule2_objects(case):
+        pairs = list(itertools.combinations(range(len(rules)), 2))
+        # third component: the stored fragments are the projections of the stored ITS graph (the model checks it on the values the
+        # implementation produced; the premise of C08_synrule_repaired_exact)
+        out.append([[[bool(rules[i] == rules[j]) for i, j in pairs], [hash(rules[i]) == hash(rules[j]) for i, j in pairs]],
+                    [True for _ in rules]])
+    return out
+
+
+def _crule2(rule):
+    """Gallina literal (its, left, right) of a constructed SynRule; None outside the model domain."""
+    def frag(G):
+        g = {"nodes": [[n, {k: d[k] for k in ("element", "charge", "aromatic", "hcount", "atom_map") if k in d}] for n, d in G.nodes(data=True)],
+             "edges": [[u, v, {k: d[k] for k in ("order", "standard_order") if k in d}] for u, v, d in G.edges(data=True)]}
+        return _cgraph(g) if in_model_domain(g) else None
+    R = rule.rc.raw
+    ns = []
+    for n, d in R.nodes(data=True):
+        if not (isinstance(n, int) and n >= 0) or "typesGH" not in d:
+            return None
+        sides = []
+        for t, am in zip(d["typesGH"], (d.get("atom_map"), None)):
+            e, ar, hc, ch = t[0], t[1], t[2], t[3]
+            if not (isinstance(e, str) and e and e.isascii() and e.isalnum() and isinstance(ar, bool) and isinstance(hc, int) and isinstance(ch, int)):
+                return None
+            sides.append("NA %s %s %s %s %s" % (_cstrN(e), cbool(ar), cZ(ch), cZ(hc), copt(cZ(am) if isinstance(am, int) else None)))
+        ns.append("(%s, (%s, %s))" % (cN(n), sides[0], sides[1]))
+    es = []
+    seen = set()
+    try:
+        for u, v, d in R.edges(data=True):
+            o = d.get("order")
+            if u == v or frozenset((u, v)) in seen or not (isinstance(o, tuple) and len(o) == 2) or min(_half(o[0]), _half(o[1])) < 0:
+                return None
+            seen.add(frozenset((u, v)))
+            so = copt(cZ(_half(d["standard_order"])) if "standard_order" in d else None)
+            es.append("(%s, %s, EA3 %s %s %s)" % (cN(u), cN(v), cZ(_half(o[0])), so, copt(cZ(_half(o[1])))))
+    except (ValueError, TypeError):
+        return None
+    left, right = frag(rule.left.raw), frag(rule.right.raw)
+    if left is None or right is None:
+        return None
+    return "((LG %s %s : graph2), %s, %s)" % (clist(ns), clist(es), left, right)
+
+
+def _rule2_term(case):
+    fams = []
+    for rules in _rule2_objects(case):
+        lits = [_crule2(r) for r in rules]
+        if any(x is None for x in lits):
+            return None
+        fams.append("run_rules2d %s" % clist(lits))
+    return "L %s" % clist(fams)
+
+
 def impl(case):
     _quiet()
+    if case["kind"] in ("itsrule", "rule"):
+        return _rule2_obs(case)
     if case["kind"] == "batch":
         Gs = [_nx(g) for g in case["graphs"]]
         return [_pattern([_canoniser(be).canonical_signature(G) for G in Gs]) for be in ("generic", "nauty")]
@@ -608,6 +691,8 @@ def _cranks(r, g):
 
 def coq_case(case):
     _quiet()
+    if case["kind"] in ("itsrule", "rule"):
+        return _rule2_term(case)
     if case["kind"] == "batch":
         # big whole-family batches stay oracle-only: a multi-MB Gallina literal costs minutes to parse and adds
         # nothing to what the per-graph cases of the same classes already compare
@@ -1969,8 +2054,9 @@ LEVEL_NOTE = ("Trusted: Coq kernel + vm_compute; the hand-written model and the 
               "model: 'signature = function of the graph' is proved for wl / morgan only GIVEN one ranking for both presentations (that the "
               "rankings do not depend on the presentation is monitored, not proved). SynRule is modelled as three fragment graphs: the "
               "three-signature comparison is proved componentwise-exact and joint-complete, and REFUTED as a characterisation of 'one "
-              "bijection' (repaired in the code by signing the rc graph with both sides of typesGH; that and the construction from an ITS "
-              "graph are checked by the oracle only).")
+              "bijection'; the REPAIRED comparison (rc graph signed with both sides of typesGH) is modelled at verdict level and proved exact: "
+              "equal <=> one bijection preserving the two-sided ITS graph, for rules whose fragments are the projections of their ITS graph "
+              "(checked per rule on every run).")
 TECHNIQUE = ("Coq 8.16 proof about an executable Gallina model (generic individualisation-refinement theory lib/IRCore + lib/IRSearch "
              "instantiated for nauty.py; separator-parsing injectivity of the serialisation and label strings) + per-run correspondence "
              "(vm_compute digest vs implementation) + independent brute-force isomorphism oracle")
